@@ -129,6 +129,7 @@ pub enum Obs {
     Reparse { t: u64, text: String, append: bool },
     Dropped { t: u64 },
     HorizonExceeded { t: u64, what: String },
+    Panicked { t: u64, thread: usize, msg: String },
 }
 
 pub struct RunResult {
@@ -258,13 +259,16 @@ pub fn run_scenario(scn: &Scenario, prefix: &[usize]) -> RunResult {
         let script = scn.u.clone();
         handles.push(std::thread::spawn(move || {
             exec.thread_start(T_U);
+            let exec2 = exec.clone();
+            let shared2 = shared.clone();
+            let body = std::panic::AssertUnwindSafe(move || {
             let mut nucleo = Some(nucleo);
             let mut gen = 0u32;
             let mut held: Vec<Option<(Injector<ItemData>, u32)>> = Vec::new();
             let mut last_text: Vec<String> = vec![String::new(); cols as usize];
             let mut tick_notify_base = 0u64;
             // reference matchers are reused across executions (creating one costs a 135 KiB zeroed allocation)
-            let mut refm_guard = REF_MATCHERS.lock().unwrap();
+            let mut refm_guard = REF_MATCHERS.lock().unwrap_or_else(|e| e.into_inner());
             let (refm_a, refm_b) = &mut *refm_guard;
             let mut refm: &mut Matcher = refm_a;
             let mut refm2: &mut Matcher = refm_b;
@@ -349,6 +353,8 @@ pub fn run_scenario(scn: &Scenario, prefix: &[usize]) -> RunResult {
                         }
                     }
                     UOp::Drain(horizon) => {
+                        // the convergence claim starts "once no injector is active any more"
+                        exec.point("U:drain_injectors_done", 0, Wait::InjectorsDone);
                         let mut k = 0;
                         loop {
                             let st = tick(nucleo.as_mut().unwrap(), gen, &mut tick_notify_base, &mut refm);
@@ -403,7 +409,13 @@ pub fn run_scenario(scn: &Scenario, prefix: &[usize]) -> RunResult {
             exec.point("U:end", 0, Wait::None);
             drop(held);
             drop(nucleo);
-            exec.thread_finish(T_U);
+            });
+            if let Err(p) = std::panic::catch_unwind(body) {
+                let msg = crate::dom::panic_msg(&p);
+                let t = exec2.log(format!("PANIC {msg}"), 0);
+                shared2.obs.lock().unwrap().push(Obs::Panicked { t, thread: 0, msg });
+            }
+            exec2.thread_finish(T_U);
         }));
     }
     // ---- injector threads
@@ -414,6 +426,9 @@ pub fn run_scenario(scn: &Scenario, prefix: &[usize]) -> RunResult {
         let tid = 1 + k;
         handles.push(std::thread::spawn(move || {
             exec.thread_start(tid);
+            let exec2 = exec.clone();
+            let shared2 = shared.clone();
+            let body = std::panic::AssertUnwindSafe(move || {
             let mut handle: Option<(Injector<ItemData>, u32)> = initial.map(|h| (h, 0));
             for op in &script {
                 match op {
@@ -440,7 +455,13 @@ pub fn run_scenario(scn: &Scenario, prefix: &[usize]) -> RunResult {
                 }
             }
             drop(handle);
-            exec.thread_finish(tid);
+            });
+            if let Err(p) = std::panic::catch_unwind(body) {
+                let msg = crate::dom::panic_msg(&p);
+                let t = exec2.log(format!("PANIC {msg}"), 0);
+                shared2.obs.lock().unwrap().push(Obs::Panicked { t, thread: tid, msg });
+            }
+            exec2.thread_finish(tid);
         }));
     }
     let trace = exec.drive();
